@@ -95,7 +95,11 @@ MonInitVal ==
     planDone |-> FALSE,          \* the plan handed to RE(...) has returned or raised (post-plan window)
     lastCmd |-> "",              \* command of the last message executed (call-site part of a signature)
     maxMid |-> 0,                \* highest message identity seen
-    faulty |-> FALSE ]           \* a device fault or a plan error was injected in this call chain
+    faulty |-> FALSE,            \* a device fault or a plan error was injected in this call chain
+    \* C18 bookkeeping: document consumers the plan subscribed itself (Msg('subscribe')) during this call
+    tsub |-> 0,                  \* in-plan subscriptions made and not removed in this call
+    tOwe |-> 0,                  \* deliveries of the last document to those consumers still to come
+    tDoc |-> <<"", 0>> ]         \* <<name, run ordinal>> of that document
 
 MonInit == mon = MonInitVal
 
@@ -119,6 +123,7 @@ ExpectedResp(pm) ==
     [] pm.cmd \in {"stage", "unstage"} -> {"seq:0", "seq:1"}
     [] pm.cmd = "declare_stream" -> {"seq:3"}
     [] pm.cmd = "subscribe" -> {"token"}
+    [] pm.cmd = "unsubscribe" -> {"None"}
     [] pm.cmd = "rewindable" -> {"bool:True", "bool:False"}
     [] OTHER -> {}
 
@@ -248,7 +253,8 @@ UpdMsg(m0, e) ==
                     "C14:message-applied-to-wrong-run")
       \* C13: this is the main plan's own message if the plan has just yielded
       mC == IF mB2.genYielded THEN [mB2 EXCEPT !.genYielded = FALSE, !.planMsg = [cmd |-> cmd, obj |-> obj, run |-> run, a |-> a]] ELSE mB2
-      mD == [mC EXCEPT !.curRun = run, !.curCmd = cmd, !.curA = a]
+      mD == [mC EXCEPT !.curRun = run, !.curCmd = cmd, !.curA = a,
+                       !.tsub = IF cmd = "subscribe" THEN @ + 1 ELSE IF cmd = "unsubscribe" /\ @ > 0 THEN @ - 1 ELSE @]     \* (C18)
       \* C14: open_run bookkeeping
       mE == IF cmd = "open_run" /\ run \in RunKeys
             THEN (IF mD.keyOrd[run] # 0 THEN [mD EXCEPT !.dupOpen = TRUE] ELSE [mD EXCEPT !.pendingOpen = run, !.dupOpen = FALSE])
@@ -574,7 +580,7 @@ UpdCall(m, e, s) ==
                                !.term = {}, !.termLate = {}, !.failedPause = FALSE, !.failedPauseLate = FALSE, !.failedPauseSelf = FALSE, !.hardReq = FALSE, !.callRuns = m.nruns, !.deferPending = FALSE,
                                !.deferCkpt = FALSE, !.deferPaused = FALSE, !.since = <<>>, !.expect = <<>>, !.replaying = FALSE, !.ckpt = TRUE,
                                !.susp = {}, !.suspWait = FALSE, !.suspEver = FALSE, !.pausedNow = FALSE, !.faulty = FALSE, !.lastCmd = "", !.reqs = <<>>,
-                               !.planDone = FALSE,
+                               !.planDone = FALSE, !.tsub = 0, !.tOwe = 0,
                                !.dev = [d \in Devices |-> [@[d] EXCEPT !.lost = 0]]]
   ELSE LET rec == [kind |-> "call:" \o op, pc |-> Where(m), st |-> m.st, res |-> m.ckpt, out |-> "", after |-> m.lastCmd]
            m1 == [m EXCEPT !.reqs = Append(@, rec)]
@@ -587,9 +593,19 @@ UpdCall(m, e, s) ==
                                          !.rew = @ + 1, !.expect = m.since \o m.expect, !.replaying = (m.since \o m.expect # <<>>), !.since = <<>>]
           ELSE [m1 EXCEPT !.term = @ \cup {op}]
 
-Upd(m, e, s, s2) ==
-  LET k == e[1] IN
-  CASE k = "doc" -> UpdDoc(m, e)
+\* C18: every document emitted while the plan's own subscriptions are live reaches each of them exactly once, before anything
+\* else happens (records derived from the same document may come in between); none reaches a consumer that was unsubscribed or
+\* belongs to an earlier call
+DocAux == {"nev", "dsc", "cfg", "dat", "sdn", "exp"}
+UpdTDoc(m, e) ==
+  IF m.tOwe = 0 THEN Viol(m, IF m.tsub = 0 THEN "C18:document-delivered-to-dropped-subscription" ELSE "C18:document-delivered-twice")
+  ELSE ViolIf([m EXCEPT !.tOwe = @ - 1], <<e[2], e[7]>> # m.tDoc, "C18:wrong-document-delivered")
+Upd(m00, e, s, s2) ==
+  LET k == e[1]
+      m == IF k \notin DocAux \cup {"tdoc"} /\ m00.tOwe > 0 THEN Viol([m00 EXCEPT !.tOwe = 0], "C18:in-plan-subscriber-missed-document") ELSE m00
+  IN
+  CASE k = "doc" -> [UpdDoc(m, e) EXCEPT !.tOwe = m.tsub, !.tDoc = <<e[2], e[7]>>]
+    [] k = "tdoc" -> UpdTDoc(m, e)
     [] k = "nev" -> UpdNev(m, e)
     [] k = "dev" -> UpdDev(m, e)
     [] k = "msg" -> UpdMsg([m EXCEPT !.inObsClose = (e[2] = "close_run")], e)
@@ -613,7 +629,7 @@ RECURSIVE FoldEv(_, _, _, _, _)
 FoldEv(m, es, i, s, s2) == IF i > Len(es) THEN m ELSE FoldEv(Upd(m, es[i], s, s2), es, i + 1, s, s2)
 
 \* suspension release: a rewind happens when _start_suspender ran (its helper replays the cache after the wait)
-MonNext == mon' = FoldEv(mon, obs', 1, S, S')
+MonNext == mon' = FoldEv(mon, Deliver(S.tsubs, obs'), 1, S, S')
 
 \* ---------------------------------------------------------------------------
 C01Tags == {"C01:duplicate-uid", "C01:schema-invalid", "C01:start-order", "C01:no-run-start", "C01:second-stop", "C01:doc-after-stop", "C01:event-without-descriptor",
@@ -642,6 +658,8 @@ C15Tags == {"C15:save-rejected-in-open-bundle", "C15:event-from-empty-bundle", "
 C16Tags == {"C16:stale-configuration", "C16:event-references-old-descriptor"}
 C31Tags == {"C31:remove-failed", "C31:plan-started-while-suspender-tripped", "C31:suspended-without-tripped-suspender",
             "C31:engine-hung-with-no-suspender-tripped"}
+C18Tags == {"C18:in-plan-subscriber-missed-document", "C18:document-delivered-to-dropped-subscription", "C18:document-delivered-twice",
+            "C18:wrong-document-delivered"}
 C42Tags == {"C42:run-without-span", "C42:span-not-ended", "C42:span-ended-twice", "C42:span-status-differs"}
 C40Tags == {"C40:count", "C40:stream-when-disabled", "C05:duplicate-seq:interruptions", "C05:num_events:interruptions", "C05:gap:interruptions"}
 C41Tags == {"C41:update-while-paused", "C41:update-while-suspended", "C41:event-after-run-end", "C05:duplicate-seq:monitor", "C05:num_events:monitor"}
